@@ -45,6 +45,15 @@ Theorem C04_join_id_is_injected_exactly_where_a_step_is_queued : forall prios ur
 Proof. exact id_injected_iff_step_queued. Qed.
 Print Assumptions C04_join_id_is_injected_exactly_where_a_step_is_queued.
 
+(* ... and at every depth of the selection a step sends: following response keys down from the
+   step's insertion point, the synthesised id is selected at the end of a path exactly when a step
+   is queued for the insertion point that path leads to. *)
+Theorem C04_join_id_is_injected_exactly_at_the_points_of_queued_steps : forall prios urls ft fuel ptype ploc ip w sels kept pls,
+  extract prios urls ft fuel ptype ploc ip w sels = Ok (kept, pls) -> lnamed sels ->
+  forall rest, id_at rest kept = true <-> exists q, In q pls /\ pl_ipoint q = ip ++ rest.
+Proof. exact id_at_iff_step_queued. Qed.
+Print Assumptions C04_join_id_is_injected_exactly_at_the_points_of_queued_steps.
+
 (* scrubbing a point removes exactly the named field of the object there: it is gone, and every
    other key of that object keeps its value *)
 Theorem C04_scrub_removes_the_field_only : forall field response point response',
